@@ -43,9 +43,10 @@ TEXT = {
          "bounds: 5 mixed / 6 push-pop operations (7 / 8 thorough) followed by a full drain, one Reverse per history; priorities finite non-NaN"),
  "C20": ("Reduced claim: bounded model checking of a 1-3 member cluster of real Servers over an in-memory transport: joins through the real handshake (stream broken after any message, then retried), removal, leader compaction after any change, restart of any member (with or without its join list): every live member must list exactly the acknowledged members with the announced addresses; plus one member over several lives, and installation of a zero-group snapshot on another member. etcd/raft between propose and commit (elections, raft message loss) is replaced by a shared committed log and is not decided.",
          "bounds: <=3 members (4 without compaction in the thorough tier), one broken handshake per join, one removal, one restart per history; <=3 lives with <=2-3 joins per life in the single-member harness; not replayed natively"),
+ "C13": ("Reduced claim: bounded model checking of the real Hnsw under concurrency at synchronisation-point granularity: one writer with concurrent readers (the server's use), two concurrent inserts, and concurrent insert/remove and remove/remove; every interleaving at lock acquisitions and atomic operations within the preemption bound; no panic, no all-blocked state, set-linearizable outcomes and contents, concurrent search results were live during the search with true scores, C01 guarantees at quiescence. Data races on plain memory are not visible to the executor and are not decided.",
+         "bounds: 2 goroutines (3 in the thorough tier) with one operation each on an index of <=2 items, 3 ids, levels {0,1}, <=2 preemptions (3 thorough), M=1 (more configurations thorough); four entrypoint hand-over races between concurrent writers are known findings (natively demonstrated, findings/C13_stress_test.go.txt)"),
 }
 NA = {
- "C13": "not applicable to bounded symbolic execution with what is installed: the claim is about all interleavings and data races of operations that each perform dozens of lock/atomic/map steps on a shared pointer graph; the engine interleaves only at synchronisation points and has no memory-model semantics (DESIGN.md section 7)",
 }
 PENDING = "check not built yet in this session (see DESIGN.md section 8 build order); no claim is made"
 
